@@ -1018,7 +1018,10 @@ def loader_rows_probe(rec, ep):
         with open(os.path.join(tmpd, 'config', 'settings.yaml'), 'w') as f:
             f.write('year: 2025\ndata_sources:\n  - name: Card\n    file: data/card.csv\n    format: "{date:%Y-%m-%d},{description},{amount}"\n'
                     '  - name: Rows\n    file: data/rows.csv\n    supplemental: true\n    format: "{date:%Y-%m-%d},{amount},{description},{qty}"\n'
-                    '  - name: Orders\n    file: data/orders.csv\n    supplemental: true\n    format: "{date:%Y-%m-%d},{amount},{description},{qty}"\n')
+                    '  - name: Orders\n    file: data/orders.csv\n    supplemental: true\n    format: "{date:%Y-%m-%d},{amount},{description},{qty}"\n'
+                    # (a supplemental source that cannot be read - its path is a folder - is simply not there for the rules)
+                    '  - name: Broken\n    file: data/broken.csv\n    supplemental: true\n    format: "{date:%Y-%m-%d},{amount},{description}"\n')
+        os.makedirs(os.path.join(tmpd, 'data', 'broken.csv'))
         cfgd = os.path.join(tmpd, 'config')
         loaded = load_supplemental_sources(load_config(cfgd), cfgd)
     except Exception as e:
@@ -1026,6 +1029,13 @@ def loader_rows_probe(rec, ep):
         return
     finally:
         shutil.rmtree(tmpd, ignore_errors=True)
+    rec.count('loader_namespace_checks')
+    stray = {k: type(v).__name__ for k, v in loaded.items() if k not in ('rows', 'orders') or not isinstance(v, list) or not all(isinstance(r, dict) for r in v)}
+    if stray:
+        # what load_supplemental_sources returns IS the namespace of bare names in every expression: it holds the sources' rows and nothing else
+        rec.violation('loader-namespace-holds-more-than-the-sources', f'load_supplemental_sources returned {stray} beside the rows of the readable sources '
+                      f'(every key is a name any rule expression can read)', {'kind': 'loader-rows'})
+        return
     if set(loaded) != {'rows', 'orders'}:
         rec.unsure('loader rows probe: sources loaded: %s' % sorted(loaded))
         return
